@@ -4,6 +4,7 @@ import (
 	"encoding/json"
 	"fmt"
 	"math/rand"
+	"os"
 	"sort"
 	"strings"
 	"sync"
@@ -48,10 +49,13 @@ var lmWithSplit = false
 func lmConfig(g *lmm.Geom, initMax uint64, maxOps int, emit bool, overwrite bool) string {
 	s := fmt.Sprintf("CONSTANTS\n  R = %d\n  NB = %d\n  NVox <- NVoxDef\n  InitSV <- InitSVDef\n  InitMax = %d\n  MaxOps = %d\n  Classes1 <- Classes1Def\n  Classes2 <- Classes2Def\n  WithOverwrite = %s\n  WithSplit = %s\n",
 		g.R, len(g.Blocks), initMax, maxOps, map[bool]string{true: "TRUE", false: "FALSE"}[overwrite], map[bool]string{true: "TRUE", false: "FALSE"}[lmWithSplit])
+	if g.InitMap != nil {
+		s += "  InitMap <- InitMapDef\n"
+	}
 	if emit {
 		return "SPECIFICATION SpecEmit\n" + s + "VIEW View\nINVARIANTS EmitObs\nCHECK_DEADLOCK FALSE\n"
 	}
-	return "SPECIFICATION Spec\n" + s + "VIEW View\nINVARIANTS Inv_C08_Conservation Inv_C12_NewLabelsFresh\nPROPERTIES Act_C08_OnlyMoves Act_C12_Increasing\nCHECK_DEADLOCK FALSE\n"
+	return "SPECIFICATION Spec\n" + s + "VIEW View\nINVARIANTS Inv_C08_Conservation Inv_C12_NewLabelsFresh Inv_Clip Inv_ClipConservation\nPROPERTIES Act_C08_OnlyMoves Act_C12_Increasing\nCHECK_DEADLOCK FALSE\n"
 }
 
 func maxU64(a []uint64) uint64 {
@@ -82,11 +86,13 @@ func lmExplore(c *Ctx, g *lmm.Geom, initSV []uint64, maxOps, mcOps int, l1, l2 *
 	var raws []rawEdge
 	PrintedJSON(r.Output, func(raw []byte) {
 		var probe struct {
-			K   *lmm.Key `json:"k"`
-			D   int      `json:"d"`
-			Obs lmm.Obs  `json:"obs"`
+			K   *lmm.Key   `json:"k"`
+			D   int        `json:"d"`
+			Obs lmm.Obs    `json:"obs"`
+			Rd  *lmm.Reads `json:"rd"`
 		}
 		if json.Unmarshal(raw, &probe) == nil && probe.K != nil {
+			probe.Obs.Rd = probe.Rd
 			k := probe.K.Canon()
 			obsOf[k] = probe.Obs
 			if probe.D == 0 && gr.init == "" {
@@ -113,7 +119,11 @@ func lmExplore(c *Ctx, g *lmm.Geom, initSV []uint64, maxOps, mcOps int, l1, l2 *
 		}
 		if e.L.Op == "overwrite" {
 			e.L.NewSV = e.T.SV
-			e.L.OldSV = e.S.SV
+		}
+		e.L.OldSV = e.S.SV
+		if e.L.Op == "agglo" {
+			o := ob
+			e.L.NewObs = &o
 		}
 		gr.edges = append(gr.edges, lmEdge{S: e.S, L: e.L, T: e.T, Obs: ob})
 		ei := len(gr.edges) - 1
@@ -176,6 +186,30 @@ type lmWorker struct {
 	afterEdge func(w *lmWorker, uuid string, e lmEdge, lab *lmm.Labels) // extra comparisons (C14)
 	restartEvery int
 	restarts     *int64
+	// variants of the instance under test (C08-4, C08-8, C08-12)
+	cache     int    // [cache.labelmap] size in MB (0 = off)
+	multi     bool   // voxel writes as multi-block POST raw with rotating compression
+	labelBase uint64 // added to the labels of the initial layout (large label values)
+	preOps    []lmm.Op // operations applied at the root before the initial comparison
+	noExt     bool     // basic read set only (C14 reads the levels instead)
+}
+
+var (
+	lmOpMu    sync.Mutex
+	lmOpCount = map[string]int64{}
+)
+
+func lmCountOp(op lmm.Op) {
+	k := op.Op
+	if op.How != "" {
+		k += "/" + op.How
+	}
+	if op.Chosen {
+		k += "/client-chosen labels"
+	}
+	lmOpMu.Lock()
+	lmOpCount[k]++
+	lmOpMu.Unlock()
 }
 
 func (w *lmWorker) branch(parent string) string {
@@ -207,24 +241,47 @@ func (w *lmWorker) report(kind string, sk string, op lmm.Op, status int, diffs [
 }
 
 func (w *lmWorker) start() (string, *lmm.Labels) {
-	w.n = w.c.StartNode(node.Config{AllowSplit: true})
+	w.n = w.c.StartNode(node.Config{AllowSplit: true, LabelmapCache: w.cache})
 	r, err := w.n.HTTP("POST", "/api/repos", []byte(`{"alias":"lm"}`))
 	must(err, "newrepo")
 	var o struct{ Root string }
 	json.Unmarshal(r.Bytes(), &o)
-	w.in = &lmm.Inst{N: w.n, G: w.g, Name: "seg", Root: o.Root, BlocksDownres: w.cfg["MaxDownresLevel"] != "" && w.cfg["MaxDownresLevel"] != "0"}
+	w.in = &lmm.Inst{RotSeed: int(w.c.Seed)*1009 + w.w*131 + len(w.gname), N: w.n, G: w.g, Name: "seg", Root: o.Root, BlocksDownres: w.cfg["MaxDownresLevel"] != "" && w.cfg["MaxDownresLevel"] != "0"}
 	must(w.in.Create(w.cfg), "create labelmap")
 	var blocks []int
 	for b := range w.g.Blocks {
 		blocks = append(blocks, b+1)
 	}
-	if w.w%2 == 1 {
-		must(w.in.IngestBlocks(o.Root, w.initSV, blocks), "ingest (POST blocks)")
+	lab := lmm.NewLabels()
+	realSV := w.initSV
+	if w.labelBase != 0 {
+		// large label values: the labels of the initial layout are shifted (order preserving)
+		realSV = make([]uint64, len(w.initSV))
+		for i, l := range w.initSV {
+			if l != 0 {
+				lab.Bind(l, l+w.labelBase)
+				realSV[i] = l + w.labelBase
+			}
+		}
+	}
+	w.in.MultiBlock = w.multi
+	w.in.NoExt = w.noExt
+	w.in.ExtEvery = w.c.pick(1, 3)
+	if w.multi {
+		must(w.in.IngestRows(o.Root, realSV, blocks, false), "ingest (multi-block POST raw)")
+	} else if w.w%2 == 1 {
+		must(w.in.IngestBlocks(o.Root, realSV, blocks), "ingest (POST blocks)")
 	} else {
-		must(w.in.Ingest(o.Root, w.initSV, blocks, false), "ingest (POST raw)")
+		must(w.in.Ingest(o.Root, realSV, blocks, false), "ingest (POST raw)")
+	}
+	for _, op := range w.preOps { // builds an initial agglomeration other than the identity
+		st, _, err := w.in.Apply(o.Root, op, lab)
+		must(err, "prepare initial state")
+		if st != 200 {
+			infra("preparing the initial state: %s refused with %d", op.Op, st)
+		}
 	}
 	must(w.in.Idle(), "idle")
-	lab := lmm.NewLabels()
 	init := w.gr.states[w.gr.init]
 	d, err := w.in.Compare(o.Root, init.obs, lab, lmm.Full)
 	must(err, "compare initial")
@@ -260,6 +317,7 @@ func (w *lmWorker) explore(sk, uuid string, lab *lmm.Labels) {
 		status, probs, err := w.in.Apply(child, e.L, cl)
 		must(err, "apply "+e.L.Op)
 		atomic.AddInt64(w.edges, 1)
+		lmCountOp(e.L)
 		w.run.Eval(fmt.Sprintf("%s|%s|%d", w.gname, sk, ei))
 		if status != 200 {
 			w.report("valid-operation-refused", sk, e.L, status, []string{fmt.Sprintf("status %d", status)}, cl, w.run)
@@ -348,7 +406,18 @@ func (w *lmWorker) explore(sk, uuid string, lab *lmm.Labels) {
 // lmSimulate lets TLC generate random behaviours (tlc -simulate) of the labelmap specification on a
 // larger geometry and replays each behaviour along a chain of versions (commit + new version
 // every few operations), comparing the full read set after every step.
-func lmSimulate(c *Ctx, run, run12 *ev.Run, g *lmm.Geom, initSV []uint64, num, depth int, edges *int64) (int, int64) {
+// lmSimOpts selects the variant of the instance a simulation runs on.
+type lmSimOpts struct {
+	name      string
+	split     bool // body splits, agglomeration ingest, index / mapping re-ingest, client-chosen split labels
+	cache     int
+	multi     bool
+	labelBase uint64
+}
+
+func lmSimulate(c *Ctx, run, run12 *ev.Run, g *lmm.Geom, initSV []uint64, num, depth int, edges *int64, so lmSimOpts) (int, int64) {
+	lmWithSplit = so.split
+	defer func() { lmWithSplit = false }()
 	files := map[string][]byte{"LabelGeom.tla": []byte(g.TLAConstantsDownres(initSV, nil, nil))}
 	simCfg := strings.Replace(lmConfig(g, maxU64(initSV), depth, true, true), "SPECIFICATION SpecEmit", "SPECIFICATION SpecSim", 1)
 	simCfg = strings.Replace(simCfg, "INVARIANTS EmitObs", "INVARIANTS EmitObs EmitHist", 1)
@@ -368,9 +437,10 @@ func lmSimulate(c *Ctx, run, run12 *ev.Run, g *lmm.Geom, initSV []uint64, num, d
 	seenB := map[string]bool{}
 	PrintedJSON(r.Output, func(raw []byte) {
 		var probe struct {
-			K    *lmm.Key `json:"k"`
-			D    int      `json:"d"`
-			Obs  lmm.Obs  `json:"obs"`
+			K    *lmm.Key   `json:"k"`
+			D    int        `json:"d"`
+			Obs  lmm.Obs    `json:"obs"`
+			Rd   *lmm.Reads `json:"rd"`
 			Hist []struct {
 				L lmm.Op  `json:"l"`
 				T lmm.Key `json:"t"`
@@ -380,6 +450,7 @@ func lmSimulate(c *Ctx, run, run12 *ev.Run, g *lmm.Geom, initSV []uint64, num, d
 			return
 		}
 		if probe.K != nil {
+			probe.Obs.Rd = probe.Rd
 			obsOf[probe.K.Canon()] = probe.Obs
 			if probe.D == 0 && initKey == nil {
 				initKey = probe.K
@@ -414,7 +485,8 @@ func lmSimulate(c *Ctx, run, run12 *ev.Run, g *lmm.Geom, initSV []uint64, num, d
 	var steps int64
 	parallel(len(behaviours), 8, func(_, bi int) {
 		w := &lmWorker{c: c, run: run, run12: run12, gr: &lmGraph{states: map[string]*lmState{initKey.Canon(): {key: *initKey, obs: initObs, parent: -1}}, init: initKey.Canon()},
-			g: g, initSV: initSV, gname: fmt.Sprintf("seeded%d/sim", g.R), cfg: map[string]string{}, edges: edges, restarts: new(int64)}
+			g: g, initSV: initSV, gname: fmt.Sprintf("seeded%d/sim%s", g.R, so.name), cfg: map[string]string{}, edges: edges, restarts: new(int64),
+			cache: so.cache, multi: so.multi, labelBase: so.labelBase}
 		cur, lab := w.start()
 		defer c.DropNode(w.n)
 		cur = w.branch(cur)
@@ -426,10 +498,15 @@ func lmSimulate(c *Ctx, run, run12 *ev.Run, g *lmm.Geom, initSV []uint64, num, d
 			}
 			if e.L.Op == "overwrite" {
 				e.L.NewSV = e.T.SV
-				e.L.OldSV = e.S.SV
+			}
+			e.L.OldSV = e.S.SV
+			if e.L.Op == "agglo" {
+				o := ob
+				e.L.NewObs = &o
 			}
 			status, probs, err := w.in.Apply(cur, e.L, lab)
 			must(err, "apply")
+			lmCountOp(e.L)
 			atomic.AddInt64(edges, 1)
 			atomic.AddInt64(&steps, 1)
 			path = append(path, e.L)
@@ -495,10 +572,23 @@ func checkC08(c *Ctx) int {
 		{"small6/C", small, []uint64{5, 5, 6, 6, 6, 2}, c.pick(2, 3)},
 		{"small6/S", small, []uint64{3, 3, 3, 8, 8, 0}, c.pick(2, 3)}, // with body splits and index / mapping re-ingest
 	}
+	// the same actions on an instance with the label index cache on, labels near 2^64, and voxel writes
+	// sent as multi-block compressed POST raw requests
+	kDepth := c.pick(1, 2)
+	if os.Getenv("C08_K_DEPTH") == "2" { // debugging aid: the thorough depth of the variant layout inside a quick run
+		kDepth = 2
+	}
+	layouts = append(layouts, layout{"small6/K", small, []uint64{3, 3, 5, 8, 8, 0}, kDepth})
+	const bigBase = uint64(0xFFFFFFFFFFF00000)
 	var states, trans, edges, restarts int64
+	only := os.Getenv("C08_LAYOUTS") // debugging aid: comma-separated layout names (and "sim", "sim2")
 	for _, lo := range layouts {
-		lmWithSplit = lo.name == "small6/S"
-		gr, s, t := lmExplore(c, lo.g, lo.initSV, lo.ops, lo.ops+1, nil, nil, lo.name == "small6/B")
+		if only != "" && !strings.Contains(","+only+",", ","+lo.name+",") {
+			continue
+		}
+		variantK := lo.name == "small6/K"
+		lmWithSplit = lo.name == "small6/S" || variantK
+		gr, s, t := lmExplore(c, lo.g, lo.initSV, lo.ops, lo.ops+1, nil, nil, lo.name == "small6/B" || variantK)
 		lmWithSplit = false
 		states += s
 		trans += t
@@ -520,6 +610,9 @@ func checkC08(c *Ctx) int {
 				}()
 				w := &lmWorker{c: c, run: run, run12: run12, gr: gr, g: lo.g, initSV: lo.initSV, gname: lo.name, w: wi, nw: nw,
 					cfg: map[string]string{}, edges: &edges, restartEvery: 40, restarts: &restarts}
+				if variantK {
+					w.cache, w.multi, w.labelBase = 64, true, bigBase
+				}
 				root, lab := w.start()
 				defer c.DropNode(w.n)
 				w.explore(gr.init, root, lab)
@@ -529,8 +622,21 @@ func checkC08(c *Ctx) int {
 		if e := firstErr.Load(); e != nil {
 			infra("labelmap worker: %v", e)
 		}
-		run.Sample(map[string]interface{}{"layout": lo.name, "initial_supervoxels": lo.initSV, "states": len(gr.states), "transitions": len(gr.edges),
-			"example_transition": gr.edges[len(gr.edges)/2].L})
+		sample := map[string]interface{}{"layout": lo.name, "initial_supervoxels": lo.initSV, "states": len(gr.states), "transitions": len(gr.edges),
+			"example_transition": gr.edges[len(gr.edges)/2].L}
+		if ob := gr.edges[len(gr.edges)/2].Obs; ob.Rd != nil && len(ob.Rd.Bodies) > 0 {
+			// what TLC computed for one bounded read of the state that transition leads to
+			sample["example_bounded_read"] = map[string]interface{}{"body": ob.Rd.Bodies[0].Label, "query_box": lo.g.QBoxes[0].String(), "expected_clip": ob.Rd.Bodies[0].Clip[0]}
+		}
+		run.Sample(sample)
+	}
+	// reads at a version that merges two sibling versions (C08-6)
+	if only == "" || strings.Contains(","+only+",", ",vmerge,") {
+		np, nr, s, t := lmVersionMerges(c, run, run12, small, &edges)
+		states += s
+		trans += t
+		restarts += nr
+		run.Set("version_merges_compared", np)
 	}
 	// simulated long behaviours on the larger seeded geometry
 	big := lmm.NewGeom(c.Seed, false)
@@ -539,15 +645,30 @@ func checkC08(c *Ctx) int {
 		bsv[i] = uint64(1 + (i*7+int(c.Seed))%5)
 	}
 	bsv[big.R-1] = 0
-	nb, nsteps := lmSimulate(c, run, run12, big, bsv, c.pick(8, 120), c.pick(12, 25), &edges)
-	run.Set("simulated_behaviours", nb)
-	run.Set("simulated_steps_replayed", nsteps)
+	var nb, nb2 int
+	var nsteps, nsteps2 int64
+	if only == "" || strings.Contains(","+only+",", ",sim,") {
+		nb, nsteps = lmSimulate(c, run, run12, big, bsv, c.pick(8, 120), c.pick(12, 25), &edges, lmSimOpts{})
+	}
+	// chains of operations inside one version on the variant instance (index cache on: a stale cached
+	// index only shows when two operations touch the same label at one version)
+	if only == "" || strings.Contains(","+only+",", ",sim2,") {
+		nb2, nsteps2 = lmSimulate(c, run, run12, big, bsv, c.pick(4, 30), c.pick(12, 25), &edges,
+			lmSimOpts{name: "/cache+split+multiblock+large", split: true, cache: 64, multi: true, labelBase: bigBase})
+	}
+	run.Set("simulated_behaviours", nb+nb2)
+	run.Set("simulated_steps_replayed", nsteps+nsteps2)
+	run.Set("simulated_steps_on_variant_instance", nsteps2)
+	run.Set("operations_replayed_by_kind", lmOpCount)
+	run.Set("reads_compared_by_option_combination", lmm.TakeStats())
 	run.Set("states", states)
 	run.Set("transitions", trans)
 	run.Set("traces_validated_against_impl", edges)
 	run.Set("restarts_with_full_compare", restarts)
-	run.Set("rule", "case = one transition (merge / cleave / split-supervoxel / renumber / mutating voxel write of a region, with every argument choice) of the TLC state graph of Labelmap.tla from an initial layout, executed on a real labelmap instance in a fresh child branch of the version holding the source state; after it every read endpoint (raw and mapped volume decoded to regions and checked voxel-exact within regions, size, supervoxels, sparsevol rles/srles, sparsevol-size, sparsevol-coarse, index, supervoxel-sizes, label, labels, mapping, sizes, listlabels) is compared with the specification's observation, the parent version is re-read (isolation), and periodically the process is restarted and everything re-read")
-	run.Assume = []string{"voxel layouts are unions of <=12 box-shaped regions of a 4-block volume (incl. negative coordinates, a single voxel, one 8^3 sub-block)", "label ids are compared modulo the bijection bound from the server's responses"}
+	run.Set("rule", "case = one transition (merge / cleave / split-supervoxel with server- or client-chosen labels / renumber / mutating voxel write of a region / body split / index and mapping re-ingest / state-changing ingest of an agglomeration through POST mappings + POST index or POST indices, with every argument choice) of the TLC state graph of Labelmap.tla from an initial layout, executed on a real labelmap instance in a fresh child branch of the version holding the source state; after it every read endpoint (raw and mapped volume decoded to regions and checked voxel-exact within regions, size, supervoxels, sparsevol rles/srles, sparsevol-size, sparsevol-coarse, index, supervoxel-sizes, label, labels, mapping, sizes, listlabels) is compared with the specification's observation (Obs), and a rotating sample of the read options with the refinement LabelmapReads.tla computes for the state (Reads: per body and per supervoxel the clip of 8 query boxes): GET blocks / specificblocks (mapped and supervoxels; lz4, gzip, blocks, uncompressed), GET raw with lz4 / gzip / neuroglancer compression, unaligned boxes, single blocks and 2-d slices, sparsevol with minx..maxz x exact=true|false x format=rles|srles|blocks x compression x supervoxels=true, HEAD sparsevol, sparsevol-coarse and sparsevols-coarse with bounds, sparsevol-by-point, size / sizes / sparsevol-size with supervoxels=true including supervoxels that were split away, existing-labels, listlabels?start&number&sizes, GET indices / indices-compressed, labels with >= 100 points; the parent version is re-read (isolation), periodically the process is restarted and everything re-read; one layout runs with the label index cache on, labels near 2^64 and multi-block compressed POST raw; pairs of commuting transitions on sibling versions are merged with POST repo/merge and the merge node compared with the state TLC reaches by applying both (also after a restart); distinct = (layout, source state, transition)")
+	run.Assume = []string{"voxel layouts are unions of <=12 box-shaped regions of a 4-block volume (incl. negative coordinates, a single voxel, one 8^3 sub-block)", "label ids are compared modulo the bijection bound from the server's responses",
+		"read options are sampled (rotating, seeded) per transition, not all combinations on every transition (thorough tier: on every third comparison); the counts per combination are in reads_compared_by_option_combination",
+		"bounded reads use 8 query boxes per geometry (crossing x=0 into the negative block, inside one block unaligned to sub-blocks, one whole block, partial bounds, beyond the volume, one seeded box); exact=false and format=blocks answers are accepted anywhere between the exact clip and the clip expanded to whole blocks"}
 	// C12 (label part) evidence is written by this run as well
 	run12.Set("states", states)
 	run12.Set("transitions", trans)
